@@ -159,7 +159,8 @@ type rtLog struct {
 func runRouterConc(c *ctx) error {
 	r := c.rng
 	nrun := c.pick(60, 1500)
-	for run := 0; run < nrun; run++ {
+	stuck := 0 // runs in which a reader had to be given up (each costs a timeout per reader)
+	for run := 0; run < nrun && stuck < 3; run++ {
 		router := server.NewEventRouter[int, int](5)
 		var mu sync.Mutex
 		var log []rtLog
@@ -238,12 +239,21 @@ func runRouterConc(c *ctx) error {
 		for _, s := range all {
 			router.Unsubscribe(s.ch)
 		}
+		runStuck := false
 		for _, s := range all {
+			wait := 5 * time.Second
+			if runStuck {
+				wait = 200 * time.Millisecond // one reader of this run was already given up
+			}
 			select {
 			case <-s.done:
-			case <-time.After(5 * time.Second):
+			case <-time.After(wait):
 				c.res.Add(hx.Finding{Kind: "propfail", Engine: "routerconc", Signature: "router-reader-stuck", Case: run, Impl: "a subscriber's channel was never closed"})
+				runStuck = true
 			}
+		}
+		if runStuck {
+			stuck++
 		}
 		server.VerifRouterHook = nil
 		select {
